@@ -227,7 +227,7 @@ for g, tier in [(0, "quick"), (1, "quick"), (2, "thorough"), (3, "thorough")]:
     h("selector_groups_%d" % g, "store_fs::selector_groups::<S, %d>" % g, ["C05"], tier, unwind=7, unwindset={r"^memcmp\.0$": 36},
       stubs=DEFAULT_STUBS + ["cteq"], family="selector_groups", mem_gb=24, cap=1500)
 # parents()/get_exact() over a harness-defined records table (E1; Kani only)
-for p1, p2, tier in [(1, 0, "quick"), (0, 4, "quick"), (1, 5, "thorough"), (5, 1, "thorough")]:
+for p1, p2, tier in [(0, 4, "quick"), (1, 0, "thorough"), (1, 5, "thorough"), (5, 1, "thorough")]:
     h("parents_law_%d_%d" % (p1, p2), "store_fs::parents_law::<S, %d, %d>" % (p1, p2), ["C02", "C08"], tier, unwind=6,
       unwindset={r"^memcmp\.0$": 36, r"swap_nonoverlapping": 40}, stubs=DEFAULT_STUBS + ["cteq"], family="parents_law", mem_gb=40, cap=1800, kani_only=True, witness="d1")
 
@@ -267,7 +267,8 @@ META["C07"] = dict(
 )
 META["C11"] = dict(
     engine=KANI,
-    functions=["engine::state::PeerState::{start_connect,accept_request,finish,abort_connect,set_sync_running}", "engine::state::expected_sync_direction",
+    functions=["engine::live::LiveActor::on_sync_via_connect_finished (E3 reachability query over the coroutine MIR)",
+               "engine::state::PeerState::{start_connect,accept_request,finish,abort_connect,set_sync_running}", "engine::state::expected_sync_direction",
                "engine::state::NamespaceStates::{accept_request,start_connect,is_syncing}"],
     bounds="two nodes with symbolic ids in either byte order, symbolic dial reasons; scenario families with concrete control flow: single dial (lost/accepted, either finish order), simultaneous dial (32 flag combinations: losses, early ends), re-dial racing the acceptor's bookkeeping, sync reports during a session (<= 2 per side), request for a document that is not syncing",
     outside="more than two overlapping dials per direction, more than two nodes, timers, the real network; the live.rs handler glue is mirrored in the harness (dial_ends) and not itself executed (async; E3)",
